@@ -25,6 +25,7 @@ import Arca.Proofs.TySkel
 import Arca.Model.RunLoop
 import Arca.Gen.Skel
 import Arca.Proofs.LockFacts
+import Arca.Model.Yaml
 
 namespace Arca.Props.C19
 open Arca.Model Arca.Proofs.Ty
@@ -134,6 +135,26 @@ theorem validation_before_start_spelled :
     ∃ pre post, Arca.Gen.Skel.workflow_workflow_executableWorkflow_Execute =
         pre ++ "call:e.input.Unserialize(serializedInput)" :: post ∧ ∀ t ∈ pre, mentionsStart t = false :=
   occursBefore_sound _ _ _ validation_before_start
+
+/-! ### the front end: the input FILE is read as text, and that reading is what `Execute` receives
+
+`engineWorkflow.Run` decodes the input file with the engine's own YAML layer (`Arca.Model.Yaml`, differential `parse-tree` of
+C11) and hands `Raw()` of the tree to `Execute`.  In that layer a scalar is its TEXT whatever YAML type its spelling suggests
+(`007`, `1e1`, `true`, `2024-01-01`, `~`): the declared schema, not the YAML spelling, decides the type, so a document is
+refused / accepted / normalised identically whether it reaches `Execute` as a file or as the same texts in a Go value
+(correspondence: the `run_leg` of the `input` stream). -/
+
+/-- a scalar of the input file is delivered as its text, whatever its tag and whatever it looks like -/
+theorem input_file_scalar_is_its_text (tag v : String) (cs : List Arca.Model.Yaml.Node) :
+    Arca.Model.Yaml.raw (.mk .str tag cs v) = .ok (.str v) := by
+  simp [Arca.Model.Yaml.raw]
+
+/-- in the current source `Run` decodes with the engine's YAML layer, takes `Raw()` and passes exactly that to `Execute`,
+    with only the error check in between (no other decoder, no conversion step) -/
+theorem run_passes_the_text_reading_to_execute :
+    Arca.Gen.Skel.engine_engineWorkflow_Run.take 6 =
+      ["call:yaml.New().Parse(input)", "if(err != nil){", "return", "}", "call:decodedInput.Raw()",
+       "call:e.workflow.Execute(ctx,decodedInput.Raw(..))"] := by decide
 
 /-! ### a refused input leaves the prepared workflow usable: the input lock is released on every path
 
